@@ -42,11 +42,39 @@ class Account:
     def meta(self):
         return {'balance': self.balance, 'log': managed(self.log, typeid='ManagedList')}
 
+    def flaky(self, kind):
+        # a side effect, then an exception of a class that transports also use
+        self.log.append(('flaky', kind))
+        raise {'reset': ConnectionResetError, 'pipe': BrokenPipeError, 'eof': EOFError, 'os': OSError, 'timeout': TimeoutError}[kind](kind, 'from the hosted method')
+
     def child(self, balance):
         return managed(Account(balance))       # hosts this very object (registry entry 'ManagedAccount' without callable)
 
 
 ServerProcess.register('Account', Account)
+
+
+class Square:
+    def side(self):
+        return 3
+
+    def area(self):
+        return 9
+
+
+class Circle:
+    def radius(self):
+        return 2
+
+    def area(self):
+        return 12
+
+
+def make_shape(kind):
+    return Square() if kind == 'square' else Circle()
+
+
+ServerProcess.register('Shape', make_shape)      # one typeid, objects with different method sets
 
 
 def outcome(f, *a, **k):
@@ -141,6 +169,22 @@ def main():
                 local, proxies = x
                 if proxies[1].history() != local.log:
                     fails.append(f'custom seed {seed}: final state differs')
+        # exceptions of "transport-like" classes raised BY THE METHOD: raised in the caller as they are, and the method ran exactly once
+        acct0 = m.Account(0)
+        for kind, cls in (('reset', ConnectionResetError), ('pipe', BrokenPipeError), ('eof', EOFError), ('os', OSError), ('timeout', TimeoutError)):
+            o = outcome(acct0.flaky, kind)
+            if o[:3] != ('exc', cls.__name__, (kind, 'from the hosted method')):
+                fails.append(f'method raising {cls.__name__}: caller saw {o[:3]}')
+        ran = [x for x in acct0.history() if x[0] == 'flaky']
+        if ran != [('flaky', k) for k in ('reset', 'pipe', 'eof', 'os', 'timeout')]:
+            fails.append(f'a failing method did not run exactly once per call: {ran}')
+        if acct0.deposit(1) != 1:
+            fails.append('connection unusable after the method raised a transport-like exception')
+        # one typeid, objects with different public methods: each proxy exposes ITS object's methods
+        c, sq = m.Shape('circle'), m.Shape('square')
+        o1, o2 = outcome(lambda: c.radius()), outcome(lambda: sq.side())
+        if o1 != ('ret', 2) or o2 != ('ret', 3) or sq.area() != 9 or c.area() != 12:
+            fails.append(f'two objects registered under one typeid: circle.radius() -> {o1[:3]}, square.side() -> {o2[:3]}')
         # Value / Namespace
         v = m.Value('i', 3)
         if v.get() != 3 or v.value != 3:
